@@ -129,6 +129,143 @@ def _module_assign(tree: ast.Module, name: str) -> ast.AST:
     raise TranslateError(f'module constant {name} not found')
 
 
+# ------------------------------------------------------------------------------------------ normalisation
+_PURE_FUNCS = {'len', 'abs', 'min', 'max', 'int', 'bool', 'str'}
+_PURE_METHODS = {'rstrip', 'lstrip', 'strip', 'rfind', 'find', 'count', 'startswith', 'endswith', 'casefold', 'lower', 'upper'}
+
+
+def _is_pure(e: ast.AST | None) -> bool:
+    """Expressions without side effects whose value depends only on the values of the names in them (strings and integers)."""
+    if e is None:
+        return True
+    if isinstance(e, (ast.Name, ast.Constant)):
+        return True
+    if isinstance(e, ast.Subscript):
+        return _is_pure(e.value) and _is_pure(e.slice)
+    if isinstance(e, ast.Slice):
+        return _is_pure(e.lower) and _is_pure(e.upper) and _is_pure(e.step)
+    if isinstance(e, ast.BinOp):
+        return _is_pure(e.left) and _is_pure(e.right)
+    if isinstance(e, ast.UnaryOp):
+        return _is_pure(e.operand)
+    if isinstance(e, ast.Compare):
+        return _is_pure(e.left) and all(_is_pure(c) for c in e.comparators)
+    if isinstance(e, (ast.BoolOp, ast.Tuple)):
+        return all(_is_pure(v) for v in (e.values if isinstance(e, ast.BoolOp) else e.elts))
+    if isinstance(e, ast.Call) and not e.keywords:
+        if isinstance(e.func, ast.Name) and e.func.id in _PURE_FUNCS:
+            return all(_is_pure(a) for a in e.args)
+        if isinstance(e.func, ast.Attribute) and e.func.attr in _PURE_METHODS:
+            return _is_pure(e.func.value) and all(_is_pure(a) for a in e.args)
+    return False
+
+
+def _stores(node: ast.AST) -> set[str]:
+    return {n.id for n in ast.walk(node) if isinstance(n, ast.Name) and isinstance(n.ctx, (ast.Store, ast.Del))}
+
+
+def _loads(node: ast.AST, name: str) -> int:
+    return sum(1 for n in ast.walk(node) if isinstance(n, ast.Name) and isinstance(n.ctx, ast.Load) and n.id == name)
+
+
+def _subst(node: ast.AST, name: str, value: ast.AST) -> ast.AST:
+    import copy
+
+    class R(ast.NodeTransformer):
+        def visit_Name(self, n: ast.Name) -> ast.AST:   # noqa: N802
+            return copy.deepcopy(value) if isinstance(n.ctx, ast.Load) and n.id == name else n
+    return R().visit(node)
+
+
+def _module_literals(tree: ast.Module) -> dict[str, ast.Constant]:
+    """Module-level names bound exactly once in the whole module, to an int/str literal (`LIMIT = 1000`, `LIMIT: Final = 1000`)."""
+    count: dict[str, int] = {}
+    for n in ast.walk(tree):
+        if isinstance(n, ast.Name) and isinstance(n.ctx, (ast.Store, ast.Del)):
+            count[n.id] = count.get(n.id, 0) + 1
+        elif isinstance(n, (ast.Global, ast.Nonlocal)):
+            for nm in n.names:
+                count[nm] = count.get(nm, 0) + 2
+        elif isinstance(n, ast.arg):
+            count[n.arg] = count.get(n.arg, 0) + 2        # shadowed somewhere: do not touch
+    out = {}
+    for st in tree.body:
+        tgt, val = None, None
+        if isinstance(st, ast.Assign) and len(st.targets) == 1 and isinstance(st.targets[0], ast.Name):
+            tgt, val = st.targets[0].id, st.value
+        elif isinstance(st, ast.AnnAssign) and isinstance(st.target, ast.Name) and st.value is not None:
+            tgt, val = st.target.id, st.value
+        if tgt and count.get(tgt) == 1 and isinstance(val, ast.Constant) and isinstance(val.value, (int, str)) and not isinstance(val.value, bool):
+            out[tgt] = val
+    return out
+
+
+def _normalise(fn: ast.FunctionDef, tree: ast.Module) -> ast.FunctionDef:
+    """An equivalent function in which
+      * module-level literal constants and function-level literal constants (`LIMIT = 1000` as a top-level statement of the body, bound
+        once) are replaced by their values,
+      * locals that are bound once to a pure expression and used only in the statements right after the binding (nothing in between
+        but other such bindings; the names in the expression not re-bound before the last use, except inside the body of an `if` whose
+        test holds the last use) are replaced by that expression.
+    Renaming, hoisting a constant and naming a sub-expression therefore all lead to the same tree."""
+    import copy
+    fn = copy.deepcopy(fn)
+    params = {a.arg for a in ast.walk(fn.args) if isinstance(a, ast.arg)}
+    nstores: dict[str, int] = {}
+    for n in ast.walk(fn):
+        if isinstance(n, ast.Name) and isinstance(n.ctx, (ast.Store, ast.Del)):
+            nstores[n.id] = nstores.get(n.id, 0) + 1
+    local = set(nstores) | params
+    for nm, val in _module_literals(tree).items():
+        if nm not in local:
+            _subst(fn, nm, val)
+    # function-level literal constants
+    for st in list(fn.body):
+        if (isinstance(st, ast.Assign) and len(st.targets) == 1 and isinstance(st.targets[0], ast.Name) and isinstance(st.value, ast.Constant)
+                and isinstance(st.value.value, (int, str)) and nstores.get(st.targets[0].id) == 1 and st.targets[0].id not in params):
+            nm = st.targets[0].id
+            before = fn.body[:fn.body.index(st)]
+            if any(_loads(x, nm) for x in before):
+                continue
+            fn.body.remove(st)
+            _subst(fn, nm, st.value)
+
+    def block(stmts: list[ast.stmt]) -> bool:
+        for i, st in enumerate(stmts):
+            if not (isinstance(st, ast.Assign) and len(st.targets) == 1 and isinstance(st.targets[0], ast.Name)):
+                continue
+            v = st.targets[0].id
+            if nstores.get(v) != 1 or v in params or not _is_pure(st.value):
+                continue
+            free = {n.id for n in ast.walk(st.value) if isinstance(n, ast.Name)} | {v}
+            total = _loads(fn, v)
+            after = stmts[i + 1:]
+            if total == 0 or sum(_loads(x, v) for x in after) != total:
+                continue
+            j = max(k for k, x in enumerate(after) if _loads(x, v))
+            between, last = after[:j], after[j]
+            if not all(isinstance(x, ast.Assign) and len(x.targets) == 1 and isinstance(x.targets[0], ast.Name) and _is_pure(x.value)
+                       and not (_stores(x) & free) for x in between):
+                continue
+            if _stores(last) & free:
+                if not (isinstance(last, ast.If) and _loads(last.test, v) == _loads(last, v) and not _stores(last.test)):
+                    continue
+            del stmts[i]
+            for x in stmts[i:i + j + 1]:
+                _subst(x, v, st.value)
+            return True
+        for st in stmts:
+            for fld in ('body', 'orelse', 'finalbody'):
+                sub = getattr(st, fld, None)
+                if isinstance(sub, list) and sub and isinstance(sub[0], ast.stmt) and block(sub):
+                    return True
+        return False
+    for _ in range(200):
+        if not block(fn.body):
+            break
+    return ast.fix_missing_locations(fn)
+
+
 # ------------------------------------------------------------------------------------------ tokenizer
 def _tokenizer_tables() -> tuple[list[tuple[int, int]], list[int], dict]:
     tree = ast.parse(src_text('tokenizer.py'))
@@ -221,19 +358,21 @@ def _slice_emit(sts: list[ast.stmt], secs: str, rem: str, pos: str, where: str) 
         raise TranslateError(f'{where}: remaining text is advanced by {ast.unparse(sts[1])}')
 
 
+def _int_lit(node: ast.AST, what: str) -> int:
+    return _int_expr(node, what)
+
+
 def _write_longstring(tree: ast.Module) -> dict:
-    fn = _fn(tree, '_write_longstring')
-    args = [a.arg for a in fn.args.args] + [a.arg for a in fn.args.kwonlyargs]
+    raw = _fn(tree, '_write_longstring')
+    args = [a.arg for a in raw.args.args] + [a.arg for a in raw.args.kwonlyargs]
     if args != ['file', 'extended', 'text', 'indent']:
         raise TranslateError(f'_write_longstring signature changed: {args}')
+    fn = _normalise(raw, tree)          # LIMIT (local or module constant) is now a literal, named sub-expressions are inlined
     b = _body(fn)
-    if len(b) != 6:
-        raise TranslateError(f'_write_longstring: expected 6 top-level statements, found {len(b)}')
-    s_limit, s_secs, s_rem, s_while, s_last, s_write = b
-    # LIMIT = 1000
-    if not (isinstance(s_limit, ast.Assign) and isinstance(s_limit.targets[0], ast.Name)):
-        raise TranslateError('LIMIT assignment not recognised')
-    limit_name, limit = s_limit.targets[0].id, _const(s_limit.value, int, 'LIMIT')
+    if len(b) != 5:
+        raise TranslateError(f'_write_longstring: expected 5 top-level statements after normalisation, found {len(b)}: '
+                             + ' | '.join(ast.unparse(x)[:40] for x in b))
+    s_secs, s_rem, s_while, s_last, s_write = b
     # sections = []
     if not (isinstance(s_secs, ast.Assign) and isinstance(s_secs.targets[0], ast.Name) and _is(s_secs.value, '[]')):
         raise TranslateError('sections initialisation not recognised')
@@ -245,22 +384,40 @@ def _write_longstring(tree: ast.Module) -> dict:
     rem = s_rem.targets[0].id
     # while len(remaining) > LIMIT:
     if not (isinstance(s_while, ast.While) and not s_while.orelse and isinstance(s_while.test, ast.Compare)
-            and len(s_while.test.ops) == 1 and _is(s_while.test.left, f'len({rem})')
-            and _is(s_while.test.comparators[0], limit_name)):
+            and len(s_while.test.ops) == 1 and _is(s_while.test.left, f'len({rem})')):
         raise TranslateError('while len(remaining) <op> LIMIT not recognised')
+    limit = _int_lit(s_while.test.comparators[0], 'LIMIT in the loop test')
     loop_op = type(s_while.test.ops[0]).__name__
     wb = s_while.body
     if len(wb) != 6:
         raise TranslateError(f'_write_longstring loop: expected 6 statements, found {len(wb)}')
-    pos1, needle1, off1 = _rfind_assign(wb[0], rem, limit_name)
+
+    def rfind_assign(st: ast.stmt) -> tuple[str, str, int]:
+        """`pos = rem.rfind(NEEDLE, 0, LIMIT) + K` -> (pos, NEEDLE, K)"""
+        if not (isinstance(st, ast.Assign) and len(st.targets) == 1 and isinstance(st.targets[0], ast.Name)
+                and isinstance(st.value, ast.BinOp) and isinstance(st.value.op, ast.Add)):
+            raise TranslateError(f'_write_longstring: expected `pos = x.rfind(..) + k` at line {st.lineno}')
+        call, k = st.value.left, _int_lit(st.value.right, 'rfind offset')
+        if isinstance(call, ast.Constant):          # k + x.rfind(..)
+            call, k = st.value.right, _int_lit(st.value.left, 'rfind offset')
+        if not (_is_call_method(call, 'rfind') and isinstance(call.func.value, ast.Name) and call.func.value.id == rem  # type: ignore[attr-defined]
+                and len(call.args) == 3 and not call.keywords):  # type: ignore[attr-defined]
+            raise TranslateError(f'_write_longstring: rfind call not recognised at line {st.lineno}')
+        needle = _const(call.args[0], str, 'rfind needle')  # type: ignore[attr-defined]
+        if _int_lit(call.args[1], 'rfind start') != 0:  # type: ignore[attr-defined]
+            raise TranslateError('rfind start is not 0')
+        if _int_lit(call.args[2], 'rfind end') != limit:  # type: ignore[attr-defined]
+            raise TranslateError('rfind end is not LIMIT')
+        return st.targets[0].id, needle, k
+    pos1, needle1, off1 = rfind_assign(wb[0])
     # if split_pos > 128: emit; continue
     if1 = wb[1]
     if not (isinstance(if1, ast.If) and not if1.orelse and isinstance(if1.test, ast.Compare) and len(if1.test.ops) == 1
             and _is(if1.test.left, pos1) and len(if1.body) == 3 and isinstance(if1.body[2], ast.Continue)):
         raise TranslateError('newline-split branch not recognised')
-    nl_op, min_nl = type(if1.test.ops[0]).__name__, _const(if1.test.comparators[0], int, 'newline threshold')
+    nl_op, min_nl = type(if1.test.ops[0]).__name__, _int_lit(if1.test.comparators[0], 'newline threshold')
     _slice_emit(if1.body[:2], secs, rem, pos1, 'newline-split branch')
-    pos2, needle2, off2 = _rfind_assign(wb[2], rem, limit_name)
+    pos2, needle2, off2 = rfind_assign(wb[2])
     if pos2 != pos1:
         raise TranslateError('second rfind assigns a different variable')
     # if split_pos == (-1 + 1): split_pos = LIMIT [guard]
@@ -268,19 +425,20 @@ def _write_longstring(tree: ast.Module) -> dict:
     if not (isinstance(if2, ast.If) and not if2.orelse and isinstance(if2.test, ast.Compare) and len(if2.test.ops) == 1
             and isinstance(if2.test.ops[0], ast.Eq) and _is(if2.test.left, pos1)):
         raise TranslateError('not-found test of the space split not recognised')
-    notfound = _int_expr(if2.test.comparators[0], 'not-found value')
-    if not if2.body or not _is(if2.body[0], f'{pos1} = {limit_name}'):
+    notfound = _int_lit(if2.test.comparators[0], 'not-found value')
+    if not (if2.body and isinstance(if2.body[0], ast.Assign) and isinstance(if2.body[0].targets[0], ast.Name) and if2.body[0].targets[0].id == pos1
+            and isinstance(if2.body[0].value, (ast.Constant, ast.BinOp, ast.UnaryOp)) and _int_lit(if2.body[0].value, 'hard cut position') == limit):
         raise TranslateError('hard cut does not start with split_pos = LIMIT')
     guard_src = [ast.unparse(s) for s in if2.body[1:]]
     if not guard_src:
         cut_guard = False
-    elif len(if2.body) == 3 and isinstance(if2.body[1], ast.Assign) and isinstance(if2.body[1].targets[0], ast.Name):
-        cnt = if2.body[1].targets[0].id
+    elif len(if2.body) == 2 and isinstance(if2.body[1], ast.If) and not if2.body[1].orelse:
+        g = if2.body[1]
         head = f'{rem}[:{pos1}]'
-        ok_count = _is(if2.body[1].value, f"len({head}) - len({head}.rstrip('\\\\'))")
-        ok_step = any(_is(if2.body[2], x) for x in (f'if {cnt} % 2 == 1:\n    {pos1} -= 1', f'if {cnt} % 2:\n    {pos1} -= 1',
-                                                    f'if {cnt} % 2 != 0:\n    {pos1} -= 1'))
-        if not (ok_count and ok_step):
+        cnt = f"(len({head}) - len({head}.rstrip('\\\\')))"
+        ok_test = any(_is(g.test, x) for x in (f'{cnt} % 2 == 1', f'{cnt} % 2', f'{cnt} % 2 != 0', f'1 == {cnt} % 2', f'{cnt} & 1', f'{cnt} & 1 == 1'))
+        ok_step = len(g.body) == 1 and any(_is(g.body[0], x) for x in (f'{pos1} -= 1', f'{pos1} = {pos1} - 1'))
+        if not (ok_test and ok_step):
             raise TranslateError('hard-cut guard not recognised: ' + ' ; '.join(guard_src))
         cut_guard = True
     else:
@@ -311,7 +469,7 @@ def _write_longstring(tree: ast.Module) -> dict:
     joiner = _const(sep.left, str, 'joiner')
     return dict(limit=limit, loop_op=loop_op, needle1=needle1, off1=off1, nl_op=nl_op, min_nl=min_nl, needle2=needle2,
                 off2=off2, notfound=notfound, cut_guard=cut_guard, empty_quotes=empty_quotes, joiner=joiner,
-                digest=ast_digest(fn), line=fn.lineno)
+                digest=ast_digest(raw), line=raw.lineno)
 
 
 def _fgd_escape(tree: ast.Module) -> dict:
@@ -598,6 +756,50 @@ class _Skeleton:
     def touches_file(self, node: ast.AST) -> bool:
         return any(isinstance(n, ast.Name) and n.id in (self.file, self.dic) for n in ast.walk(node))
 
+    @staticmethod
+    def items(evs: list[str]) -> list[tuple[str, ...]]:
+        """Split a list of events into its top-level items (single events and whole `if`/`loop` blocks)."""
+        out: list[tuple[str, ...]] = []
+        cur: list[str] = []
+        depth = 0
+        for e in evs:
+            cur.append(e)
+            if e == '}else{':
+                continue
+            if e.endswith('{'):
+                depth += 1
+            elif e == '}':
+                depth -= 1
+            if depth == 0:
+                out.append(tuple(cur))
+                cur = []
+        return out + ([tuple(cur)] if cur else [])
+
+    @classmethod
+    def branches(cls, test: str, body: list[str], orelse: list[str]) -> list[str]:
+        """Events of a two-way choice in normal form: what both branches do first / last is done before / after the choice (the
+        conditions never read the file, and which VALUE is written is not part of the skeleton), a branch without events is left
+        out, a choice without events disappears.  `if c: w(a); t() else: w(b)` and `w(a if c else b); if c: t()` are the same."""
+        if not any(e != 'return' for e in body + orelse):
+            return []
+        b, o = cls.items(body), cls.items(orelse)
+        pre: list[tuple[str, ...]] = []
+        while b and o and b[0] == o[0] and b[0] != ('return',):
+            pre.append(b.pop(0))
+            o.pop(0)
+        post: list[tuple[str, ...]] = []
+        while b and o and b[-1] == o[-1] and b[-1] != ('return',):
+            post.insert(0, b.pop())
+            o.pop()
+        flat = lambda xs: [e for it in xs for e in it]   # noqa: E731
+        mid: list[str] = []
+        if b or o:
+            if not b:       # only the else branch does something: keep the shape `if(c){}else{..}` explicit
+                mid = [f'if({test}){{', '}else{'] + flat(o) + ['}']
+            else:
+                mid = [f'if({test}){{'] + flat(b) + (['}else{'] + flat(o) if o else []) + ['}']
+        return flat(pre) + mid + flat(post)
+
     # -- one primitive expression
     def prim_write(self, call: ast.Call) -> str:
         """file.write(ARG)"""
@@ -613,6 +815,11 @@ class _Skeleton:
     def events_of_expr(self, node: ast.AST) -> list[str]:
         """Primitive events of one expression, in evaluation order (arguments before the call)."""
         ev: list[str] = []
+        if isinstance(node, ast.IfExp):
+            # `A if c else B` is the expression form of `if c: A else: B`: same events, same rendering
+            if self.events_of_expr(node.test):
+                raise TranslateError(f'{self.fn.name}: the file is read inside a condition (line {node.lineno})')
+            return self.branches(self.show(node.test), self.events_of_expr(node.body), self.events_of_expr(node.orelse))
         for ch in ast.iter_child_nodes(node):
             if not (isinstance(node, ast.Call) and ch is node.func):
                 ev += self.events_of_expr(ch)
@@ -673,14 +880,20 @@ class _Skeleton:
                 out.append('return')
             return out
         if isinstance(st, ast.If):
+            if self.events_of_expr(st.test):
+                raise TranslateError(f'{self.fn.name}: the file is read inside a condition (line {st.lineno})')
+            test = self.show(st.test)
             self.depth += 1
+            n0 = self.nread
             body = [e for x in st.body for e in self.stmt(x)]
+            n1, self.nread = self.nread, n0
             orelse = [e for x in st.orelse for e in self.stmt(x)]
+            self.nread = max(n1, self.nread)          # the values read so far are counted along one path, not along both
             self.depth -= 1
-            if not any(e != 'return' for e in body + orelse):
-                return []
-            return [f'if({self.show(st.test)}){{'] + body + (['}else{'] + orelse if orelse else []) + ['}']
+            return self.branches(test, body, orelse)
         if isinstance(st, (ast.For, ast.While)):
+            if self.events_of_expr(st.iter if isinstance(st, ast.For) else st.test):
+                raise TranslateError(f'{self.fn.name}: the file is read in a loop header (line {st.lineno})')
             self.depth += 1
             body = [e for x in st.body for e in self.stmt(x)]
             self.depth -= 1
